@@ -323,3 +323,62 @@ func VerifC10ValueType() {
 	zzverif.Known("C10-unnamed-object-fields", verifUnnamedFieldsRegion(v))
 	zzverif.Assert(verifMatches(v, v.Type()), "value-matches-own-type")
 }
+
+// VerifC10SumKeepsOperands: TypeSum must not modify its operands. The left operand is a union
+// BUILT BY TypeSum from three distinct scalar types (so its alternatives slice has the capacity
+// append gave it, not a literal's), the right one a fourth scalar type: afterwards the left operand
+// still has exactly its three alternatives, the sum is an upper bound of both and commutative.
+func VerifC10SumKeepsOperands() {
+	var ts [4]Type
+	for i := range ts {
+		ts[i] = VerifNDType(fmt.Sprintf("t%d", i), 0, 0, false)
+		zzverif.Assume(ts[i].TypeID != TypeIDAny)
+		for j := 0; j < i; j++ {
+			zzverif.Assume(ts[j].TypeID != ts[i].TypeID)
+		}
+	}
+	a := TypeSum(TypeSum(ts[0], ts[1]), ts[2])
+	zzverif.Assume(a.TypeID == TypeIDUnion && len(a.Union.Alternatives) == 3)
+	before := make([]TypeID, 3)
+	for i, alt := range a.Union.Alternatives {
+		before[i] = alt.TypeID
+	}
+	sum := TypeSum(a, ts[3])
+	zzverif.Reach("summed")
+	same := len(a.Union.Alternatives) == 3
+	for i := 0; i < 3 && i < len(a.Union.Alternatives); i++ {
+		same = zzverif.And(same, a.Union.Alternatives[i].TypeID == before[i])
+	}
+	zzverif.Assert(same, "left-operand-unchanged")
+	zzverif.Assert(a.Is(sum) == TypeRelationIs, "TypeSum-upper-bound-left")
+	zzverif.Assert(ts[3].Is(sum) == TypeRelationIs, "TypeSum-upper-bound-right")
+	zzverif.Assert(sum.Equals(TypeSum(ts[3], a)), "TypeSum-commutative")
+	for i := 0; i < 3; i++ {
+		zzverif.Assert(ts[i].Is(sum) == TypeRelationIs, "every-original-alternative-still-covered")
+	}
+}
+
+// VerifC10NonNullableAnyOrder: NonNullable on a union written by hand with its alternatives in ANY
+// order (octosql builds `{...} | NULL` that way in logical.TypecheckPossiblyNullableStruct):
+// NULL is removed wherever it stands, the other alternatives stay.
+func VerifC10NonNullableAnyOrder() {
+	d, e := zzverif.Param("D"), zzverif.Param("E")
+	n := 2 + zzverif.Choice("n", 2)
+	alts := make([]Type, n)
+	for i := range alts {
+		alts[i] = VerifNDType(fmt.Sprintf("u%d", i), d, e, false)
+		zzverif.Assume(alts[i].TypeID != TypeIDAny)
+		for j := 0; j < i; j++ {
+			zzverif.Assume(alts[j].TypeID != alts[i].TypeID)
+		}
+	}
+	t := Type{TypeID: TypeIDUnion, Union: struct{ Alternatives []Type }{Alternatives: alts}}
+	r := NonNullable(t)
+	zzverif.Reach("generated")
+	zzverif.Assert(Null.Is(r) != TypeRelationIs, "NULL-removed")
+	for _, alt := range alts {
+		if alt.TypeID != TypeIDNull {
+			zzverif.Assert(alt.Is(r) == TypeRelationIs, "other-alternatives-kept")
+		}
+	}
+}
